@@ -512,8 +512,8 @@ def _calculate_ranges(config, start, stop):
             N2_local += remainder
                 
         rng = list()
-        rng.append(N1_local)
-        rng.append(N2_local)
+        rng.append(start+N1_local)
+        rng.append(start+N2_local)
         ranges[rank] = rng
         
     config.ranges = ranges
